@@ -164,3 +164,24 @@ Qed.
 Theorem tracing_transparent client p jit script n1 s1 n2 s2 :
   fst (traced_run client p jit n1 s1 script) = fst (traced_run client p jit n2 s2 script).
 Proof. reflexivity. Qed.
+
+(* what reaches the caller is the outcome of the last attempt that was traced - the very object (same tag) *)
+Theorem caller_gets_last_traced client p jit tracers supplied script a :
+  r_final (fst (traced_run client p jit tracers supplied script)) = Some a ->
+  nth_error (firstn (r_sends (send_with client p jit script)) script) (r_sends (send_with client p jit script) - 1) = Some a.
+Proof.
+  unfold traced_run. cbn [fst]. intros H.
+  assert (Hn : nth_error script (r_sends (send_with client p jit script) - 1) = Some a).
+  { unfold send_with in *. destruct (effective client p) as [s|].
+    - apply loop_final_is_last. exact H.
+    - destruct script as [|b rest]; cbn in *; [discriminate|]. exact H. }
+  assert (Hpos : (0 < r_sends (send_with client p jit script))%nat).
+  { unfold send_with in *. destruct (effective client p) as [s|].
+    - destruct script as [|b rest]; cbn in *; [discriminate|]. destruct (retryable s b); cbn; [|apply Nat.lt_0_1].
+      destruct (delays (s_backoff s) jit); cbn; [apply Nat.lt_0_1|apply Nat.lt_0_succ].
+    - destruct script; cbn in *; [discriminate|apply Nat.lt_0_1]. }
+  remember (r_sends (send_with client p jit script)) as n. destruct n as [|n]; [inversion Hpos|].
+  cbn [Nat.sub] in *. rewrite Nat.sub_0_r in *.
+  clear - Hn. revert script Hn. induction n as [|n IH]; intros [|b rest] Hn; cbn in *; try discriminate; [exact Hn|].
+  apply IH. exact Hn.
+Qed.
